@@ -50,6 +50,17 @@ Proof.
                     cbv beta iota zeta; split; first [ reflexivity | f_equal; f_equal; congruence ] ] ].
 Qed.
 
+(** the index is inside the array [entries : [_; SEQ_TRACKING_SIZE]] (indexing cannot panic) *)
+Lemma leaf_trk_slot_in_range seq id now id0 ts0 sq0 cnt :
+  0 <= seq ->
+  0 <= fst (leaf_trk_get id0 ts0 sq0 seq now) < SEQ_TRACKING_SIZE /\
+  0 <= fst (fst (fst (fst (leaf_trk_insert id0 ts0 sq0 cnt seq id now)))) < SEQ_TRACKING_SIZE.
+Proof.
+  intros H. pose proof (Z.mod_pos_bound seq SEQ_TRACKING_SIZE eq_refl).
+  unfold leaf_trk_get, leaf_trk_insert; cbv zeta; rewrite ?trk_land_mask, ?trk_rem_size by assumption.
+  split; repeat match goal with |- context [if ?b then _ else _] => destruct b end; cbn [fst]; assumption.
+Qed.
+
 (** the approximate element count: one more exactly when the cell was empty, saturating (logging only) *)
 Lemma leaf_trk_insert_count_ok seq id now id0 ts0 sq0 cnt :
   let '(_, _, _, _, cnt') := leaf_trk_insert id0 ts0 sq0 cnt seq id now in
